@@ -108,3 +108,26 @@ def emit(event, validator, row=None, error=None, **fields):
     record.update(fields)
     with open(_TRACE_PATH, "a", encoding="utf-8") as trace_file:
         trace_file.write(json.dumps(record) + "\n")
+
+
+def emit_cid(event, cid, row=None):
+    """Log ``event`` of the CID ``cid`` while it is being read (one begin and one end per row, one when done)."""
+    global _seq
+    if not ENABLED or _TRACE_PATH is None:
+        return
+    _seq += 1
+    location = getattr(cid, "_location", None)
+    record = {
+        "seq": _seq,
+        "pid": os.getpid(),
+        "ev": event,
+        "cidload": _id_of("cid", cid),
+        "line": location.line if location is not None else -1,
+        "nfields": len(cid.field_names),
+        "nchecks": len(cid.check_names),
+        "format": cid.data_format.format if cid.data_format is not None else "",
+    }
+    if row is not None:
+        record["cells"] = [("%s" % cell)[:60] for cell in row[:3]]
+    with open(_TRACE_PATH, "a", encoding="utf-8") as trace_file:
+        trace_file.write(json.dumps(record) + "\n")
